@@ -1,4 +1,5 @@
 import EpModel.Props.C08Link
+import EpModel.Props.C08Net
 /- C08 — every header value survives encode → decode unchanged.
    Aggregator: the theorems live in `Props/C08Link.lean` (link layer, ARP, transport) and
    `Props/C08Net.lean` (network layer). -/
